@@ -41,6 +41,17 @@ def run(ctx, res):
             if t.children[0].data != 'b':
                 res.violation('regression of fixed finding F16: ' + f['what'], w)
     jobs, outs = forestlib.forest_stream(ctx, 5, {'c05'}, 1500, 20000, prio=True)
+    # the choice function itself: every ambiguous symbol node of the real forests against the Lean `choose`
+    from common import run_driver_parallel
+    cn = [(rec['grammar'], run_['text'], run_['lexer'], c) for st_, rec in outs if st_ == 'ok' and 'runs' in rec for run_ in rec['runs'] for c in run_.get('choices', [])]
+    if cn:
+        model = run_driver_parallel([{'op': 'choose', 'nodes': [c['fams'] for _g, _t, _l, c in cn[i:i + 50]]} for i in range(0, len(cn), 50)])
+        flat = [x for m in model for x in m]
+        res.count('choice_nodes_against_lean_choose', len(cn))
+        for (g_, t_, l_, c), m in zip(cn, flat):
+            if m != c['chosen'] and c['fams'][m] != c['fams'][c['chosen']]:
+                res.corr_break('sorted(children, key=sort_key)[0] differs from the Lean choose', {'grammar': g_, 'text': t_, 'lexer': l_, 'families [is_empty, priority, rule.order]': c['fams'], 'code': c['chosen'], 'model': m})
+                break
     for job, rec in problems(res, jobs, outs, 'parsing with ambiguity=resolve'):
         if 'gerr' in rec:
             res.count('grammar_error'); continue
